@@ -24,7 +24,9 @@ if [ -n "$DEMOPKG" ]; then
   timeout 600 go test -count=1 "$@" -run "^($RUN)\$" "./$DEMOPKG/" 2>&1 | tail -3
   rm -f "$WT/$DEMOPKG/zz_demo_test.go"
 fi
+if [ -z "${SKIPTESTS:-}" ]; then
 echo "== existing tests with the change"
 timeout 1500 go test -vet=off -count=1 ./... 2>&1 | grep -v '^ok\|no test files' | tail -5; echo "(non-ok lines above)"
+fi
 echo "== check"
 cd /verif && VERIF_REPO="$WT" ./check "$PID" quick 2>&1 | grep -v KNOWN | tail -4
